@@ -107,7 +107,7 @@ def lineTo (d : D) (x y : Float) : D :=
         let div := perpDot da db
         let length := hypot da.1 da.2 * hypot db.1 db.2
         if equal (div / length) 0.0 then
-          let ext := if da.2 < da.1 then signbit da.1 == signbit db.1 else signbit da.2 == signbit db.2
+          let ext := if da.2.abs < da.1.abs then signbit da.1 == signbit db.1 else signbit da.2 == signbit db.2
           if ext then some ((d.setIfInBounds (d.size - 3) x).setIfInBounds (d.size - 2) y) else none
         else none
       else none
